@@ -24,6 +24,7 @@ import re
 import subprocess
 import sys
 import tempfile
+import time
 from pathlib import Path
 
 from core import Failure, InfraError, REPO, SRC, VERIF, log
@@ -93,6 +94,25 @@ def normalize(s):
             out[k] = [normalize(x) for x in v] if isinstance(v, list) else v
         elif k in SCHEMA_MAP_KW:
             out[k] = {n: normalize(x) for n, x in v.items()} if isinstance(v, dict) else v
+        else:
+            out[k] = v
+    return out
+
+
+def strip_annotations(s):
+    """normalize + removal of every annotation keyword: equal results cannot be told apart by any document."""
+    if not isinstance(s, dict):
+        return s
+    out = {}
+    for k, v in s.items():
+        if (k in ANNOTATIONS and k != "$defs") or (k == "additionalProperties" and v is True):
+            continue
+        if k in SCHEMA_KW:
+            out[k] = strip_annotations(v)
+        elif k in SCHEMA_LIST_KW:
+            out[k] = [strip_annotations(x) for x in v] if isinstance(v, list) else v
+        elif k in SCHEMA_MAP_KW:
+            out[k] = {n: strip_annotations(x) for n, x in v.items()} if isinstance(v, dict) else v
         else:
             out[k] = v
     return out
@@ -172,18 +192,27 @@ def generated(repo: Path = REPO) -> dict:
     return _generated_cache
 
 
-def published(repo: Path = REPO) -> dict:
+def published(repo: Path = REPO, bad: list | None = None) -> dict:
+    """Parsed `*.json` files under specification/schema; names of unparsable ones appended to `bad`."""
     d = repo / "specification" / "schema"
-    return {f.name: json.loads(f.read_text()) for f in sorted(d.glob("*.json"))}
+    out = {}
+    for f in sorted(d.glob("*.json")):
+        try:
+            out[f.name] = json.loads(f.read_text())
+        except ValueError:
+            if bad is not None:
+                bad.append(f.name)
+    return out
 
 
 def configurations(repo: Path = REPO):
     """Pair generated and published files.  Returns (configs, problems); a config is
     dict(name=<file-name prefix>, gen_file, pub_file, gen, pub, version)."""
     g = generated(repo)
-    pub = published(repo)
+    bad: list = []
+    pub = published(repo, bad)
     ver = g["versions"]
-    problems = []
+    problems = [f"published file {n} is not valid JSON" for n in bad]
     cfgs = []
     # the generator names its files <prefix>_<get_version()>.json
     suffixes = sorted({f"_{v}.json" for k, v in ver.items() if k != "serialization_version"}, key=len, reverse=True)
@@ -410,3 +439,1094 @@ def translate(repo: Path, gen_dir: Path) -> list[str]:
         if f.stem not in wanted:
             f.unlink()
     return problems
+
+
+# ----------------------------------------------------------------------------- Python evaluator
+# statement-by-statement mirror of Schema.eval (None = no verdict, strict)
+
+SEMVER_PATTERN = (
+    r"^(0|[1-9]\d*)\.(0|[1-9]\d*)\.(0|[1-9]\d*)(?:-((?:0|[1-9]\d*|\d*[a-zA-Z-][0-9a-zA-Z-]*)"
+    r"(?:\.(?:0|[1-9]\d*|\d*[a-zA-Z-][0-9a-zA-Z-]*))*))?(?:\+([0-9a-zA-Z-]+(?:\.[0-9a-zA-Z-]+)*))?$"
+)
+FUEL = 2000
+
+
+def _matcher(pat: str, text: str):
+    if pat != SEMVER_PATTERN:
+        return None
+    if any(ord(c) >= 128 or c == "\n" for c in text):
+        return None
+    return re.search(pat, text) is not None
+
+
+def _is_int(j):
+    return (isinstance(j, int) and not isinstance(j, bool)) or (isinstance(j, float) and j.is_integer())
+
+
+def canon(j):
+    if j is None:
+        return ("z",)
+    if isinstance(j, bool):
+        return ("b", j)
+    if _is_int(j):
+        return ("i", int(j))
+    if isinstance(j, float):
+        return ("n", repr(j))
+    if isinstance(j, str):
+        return ("s", j)
+    if isinstance(j, list):
+        return ("a", tuple(canon(x) for x in j))
+    return ("o", tuple(sorted((k, canon(v)) for k, v in j.items())))
+
+
+def eqv(a, b) -> bool:
+    return canon(a) == canon(b)
+
+
+def _type_ok(t, j):
+    if t == "null":
+        return j is None
+    if t == "boolean":
+        return isinstance(j, bool)
+    if t == "integer":
+        return _is_int(j)
+    if t == "number":
+        return isinstance(j, (int, float)) and not isinstance(j, bool)
+    if t == "string":
+        return isinstance(j, str)
+    if t == "array":
+        return isinstance(j, list)
+    if t == "object":
+        return isinstance(j, dict)
+    return None
+
+
+def _all(vals):
+    vals = list(vals)
+    if any(v is None for v in vals):
+        return None
+    return all(vals)
+
+
+def _count(vals):
+    vals = list(vals)
+    if any(v is None for v in vals):
+        return None
+    return sum(1 for v in vals if v)
+
+
+def ev(defs: dict, s, j, fuel: int = FUEL):
+    if isinstance(s, bool):
+        return s
+    if not isinstance(s, dict) or fuel == 0:
+        return None
+    rec = lambda s2, j2: ev(defs, s2, j2, fuel - 1)  # noqa: E731
+    out = []
+    for k, v in s.items():
+        out.append(_kw(defs, rec, s, j, k, v))
+    return _all(out)
+
+
+def _kw(defs, rec, sibs, j, k, v):
+    if k == "$ref":
+        if not isinstance(v, str) or not v.startswith("#/$defs/") or v[8:] not in defs:
+            return None
+        return rec(defs[v[8:]], j)
+    if k == "type":
+        if isinstance(v, str):
+            return _type_ok(v, j)
+        if isinstance(v, list):
+            c = _count(_type_ok(t, j) if isinstance(t, str) else None for t in v)
+            return None if c is None else c > 0
+        return None
+    if k == "properties":
+        if not isinstance(v, dict):
+            return None
+        if not isinstance(j, dict):
+            return True
+        return _all(rec(sub, j[n]) if n in j else True for n, sub in v.items())
+    if k == "required":
+        if not isinstance(v, list):
+            return None
+        if isinstance(j, dict):
+            return _all((n in j) if isinstance(n, str) else None for n in v)
+        return _all(True if isinstance(n, str) else None for n in v)
+    if k == "additionalProperties":
+        if not isinstance(j, dict):
+            return True
+        props = sibs.get("properties")
+        names = set(props) if isinstance(props, dict) else set()
+        return _all(True if n in names else rec(v, x) for n, x in j.items())
+    if k == "items":
+        if not isinstance(j, list):
+            return True
+        pre = sibs.get("prefixItems")
+        n = len(pre) if isinstance(pre, list) else 0
+        return _all(rec(v, x) for x in j[n:])
+    if k == "prefixItems":
+        if not isinstance(v, list):
+            return None
+        if not isinstance(j, list):
+            return True
+        return _all(rec(s2, x) for s2, x in zip(v, j))
+    if k in ("anyOf", "oneOf"):
+        if not isinstance(v, list):
+            return None
+        c = _count(rec(s2, j) for s2 in v)
+        if c is None:
+            return None
+        return c > 0 if k == "anyOf" else c == 1
+    if k == "allOf":
+        if not isinstance(v, list):
+            return None
+        return _all(rec(s2, j) for s2 in v)
+    if k == "const":
+        return eqv(v, j)
+    if k == "enum":
+        if not isinstance(v, list):
+            return None
+        return any(eqv(c, j) for c in v)
+    if k == "minItems":
+        if not _is_int(v):
+            return None
+        return len(j) >= v if isinstance(j, list) else True
+    if k == "maxItems":
+        if not _is_int(v):
+            return None
+        return len(j) <= v if isinstance(j, list) else True
+    if k == "uniqueItems":
+        if v is True:
+            if not isinstance(j, list):
+                return True
+            cs = [canon(x) for x in j]
+            return len(set(cs)) == len(cs)
+        if v is False:
+            return True
+        return None
+    if k == "pattern":
+        if not isinstance(v, str):
+            return None
+        return _matcher(v, j) if isinstance(j, str) else True
+    if k in ANNOTATIONS:
+        return True
+    return None
+
+
+def _verdict(v) -> str:
+    return "!unsupported" if v is None else ("true" if v else "false")
+
+
+# ----------------------------------------------------------------------------- documents
+
+
+class NoInstance(Exception):
+    pass
+
+
+STRS = ["", "a", "live", "Module", "x.y", "0.1.0", "é"]
+SEMVERS = ["0.1.0", "1.2.3-alpha.1", "10.20.30+build.5", "1.0.0-0.3.7", "01.2.3", "1.2", "1.2.3-01", "v1.0.0"]
+SIMPLE = [None, True, False, 0, 7, -3, 1.0, 2.5, "7", "s", [], {}, [1, "a"], {"k": 1}]
+
+
+def _rand_any(rng):
+    return copy.deepcopy(rng.choice(SIMPLE))
+
+
+def gen_instance(defs, s, rng, depth=0, maxdepth=5):
+    """Random (mostly valid) instance of schema `s`."""
+    if depth > maxdepth + 10:
+        raise NoInstance
+    if s is True or s == {}:
+        return _rand_any(rng)
+    if s is False or not isinstance(s, dict):
+        raise NoInstance
+    if "$ref" in s:
+        r = s["$ref"]
+        if not isinstance(r, str) or r[8:] not in defs:
+            raise NoInstance
+        return gen_instance(defs, defs[r[8:]], rng, depth, maxdepth)
+    if "const" in s:
+        return copy.deepcopy(s["const"])
+    if isinstance(s.get("enum"), list) and s["enum"]:
+        return copy.deepcopy(rng.choice(s["enum"]))
+    for k in ("oneOf", "anyOf"):
+        if isinstance(s.get(k), list) and s[k]:
+            branches = list(s[k])
+            rng.shuffle(branches)
+            for b in branches:
+                try:
+                    return gen_instance(defs, b, rng, depth + 1, maxdepth)
+                except NoInstance:
+                    continue
+            raise NoInstance
+    if isinstance(s.get("allOf"), list) and s["allOf"]:
+        return gen_instance(defs, s["allOf"][0], rng, depth + 1, maxdepth)
+    t = s.get("type")
+    if isinstance(t, list) and t:
+        t = rng.choice(t)
+    if t is None:
+        if "properties" in s or "required" in s:
+            t = "object"
+        elif "items" in s or "prefixItems" in s:
+            t = "array"
+        else:
+            return _rand_any(rng)
+    deep = depth >= maxdepth
+    if t == "object":
+        props = s.get("properties") if isinstance(s.get("properties"), dict) else {}
+        req = [n for n in s.get("required", []) if isinstance(n, str)] if isinstance(s.get("required"), list) else []
+        out = {}
+        for name, sub in props.items():
+            if name in req or (not deep and rng.random() < 0.5):
+                try:
+                    out[name] = gen_instance(defs, sub, rng, depth + 1, maxdepth)
+                except NoInstance:
+                    if name in req:
+                        raise
+        for name in req:
+            if name not in props:
+                out[name] = _rand_any(rng)
+        ap = s.get("additionalProperties", True)
+        if ap is not False and not deep and rng.random() < 0.25:
+            try:
+                out["x" + str(rng.randint(0, 9))] = gen_instance(defs, ap, rng, depth + 1, maxdepth)
+            except NoInstance:
+                pass
+        return out
+    if t == "array":
+        pre = s.get("prefixItems") if isinstance(s.get("prefixItems"), list) else []
+        items = s.get("items", True)
+        lo = s.get("minItems", 0) if _is_int(s.get("minItems", 0)) else 0
+        hi = s.get("maxItems") if _is_int(s.get("maxItems")) else max(lo, len(pre)) + 2
+        n = lo if deep else rng.randint(lo, max(lo, min(hi, max(lo, len(pre)) + 2)))
+        out = []
+        for i in range(int(n)):
+            out.append(gen_instance(defs, pre[i] if i < len(pre) else items, rng, depth + 1, maxdepth))
+        if s.get("uniqueItems") is True:
+            seen, ded = set(), []
+            for x in out:
+                c = canon(x)
+                if c not in seen:
+                    seen.add(c)
+                    ded.append(x)
+            out = ded
+        return out
+    if t == "string":
+        return rng.choice(SEMVERS) if "pattern" in s else rng.choice(STRS)
+    if t == "integer":
+        return rng.choice([0, 1, 2, 5, -1, 2**40, 3.0])
+    if t == "number":
+        return rng.choice([0, 1, 2.5, -1.25, 3.0])
+    if t == "boolean":
+        return rng.random() < 0.5
+    if t == "null":
+        return None
+    return _rand_any(rng)
+
+
+def paths(doc, pre=()):
+    yield pre
+    if isinstance(doc, dict):
+        for k, v in doc.items():
+            yield from paths(v, pre + (k,))
+    elif isinstance(doc, list):
+        for i, v in enumerate(doc):
+            yield from paths(v, pre + (i,))
+
+
+def _get(doc, path):
+    for p in path:
+        doc = doc[p]
+    return doc
+
+
+def _set(doc, path, val):
+    if not path:
+        return val
+    doc = copy.deepcopy(doc)
+    parent = _get(doc, path[:-1])
+    parent[path[-1]] = val
+    return doc
+
+
+def _delete(doc, path):
+    doc = copy.deepcopy(doc)
+    parent = _get(doc, path[:-1])
+    del parent[path[-1]]
+    return doc
+
+
+def _consts(defs) -> list:
+    out = set()
+
+    def walk(s):
+        if isinstance(s, dict):
+            if isinstance(s.get("const"), str):
+                out.add(s["const"])
+            for v in s.values():
+                walk(v)
+        elif isinstance(s, list):
+            for v in s:
+                walk(v)
+
+    walk(defs)
+    return sorted(out)
+
+
+def mutate(doc, rng, consts):
+    """One random structural mutation."""
+    ps = list(paths(doc))
+    path = rng.choice(ps)
+    here = _get(doc, path)
+    ops = ["retype"]
+    if path:
+        ops.append("delete")
+    if isinstance(here, dict):
+        ops += ["addkey", "addkey"]
+    if isinstance(here, list):
+        ops += ["append", "dup"] if here else ["append"]
+    if isinstance(here, str) and consts:
+        ops += ["tag", "tag"]
+    if isinstance(here, int) and not isinstance(here, bool):
+        ops.append("str")
+    op = rng.choice(ops)
+    if op == "delete":
+        return _delete(doc, path)
+    if op == "addkey":
+        new = dict(here)
+        new[rng.choice(["zz_extra", "parent", "op", "t", "v", "extensions"])] = _rand_any(rng)
+        return _set(doc, path, new)
+    if op == "append":
+        return _set(doc, path, list(here) + [_rand_any(rng)])
+    if op == "dup":
+        return _set(doc, path, list(here) + [copy.deepcopy(rng.choice(here))])
+    if op == "tag":
+        return _set(doc, path, rng.choice(consts))
+    if op == "str":
+        return _set(doc, path, str(here))
+    return _set(doc, path, _rand_any(rng))
+
+
+
+# synthetic schemas (exercise every modelled keyword, also in combinations the files do not use) ----
+
+_DATA = [None, True, False, 0, 1, 1.0, 2, 2.5, "a", "b", "", [], [1], [1, 2], [1, 1], [{"a": 1, "b": 2}, {"b": 2, "a": 1}],
+         {}, {"a": 1}, {"a": 1, "b": 2}, {"b": 2, "a": 1}, {"a": "x", "c": None}, [0, "a", True], "1.2.3", "01.2.3"]
+
+
+def _rand_schema(rng, depth, refs):
+    r = rng.random()
+    if depth <= 0 or r < 0.2:
+        c = rng.randint(0, 7)
+        if c == 0:
+            return rng.random() < 0.7
+        if c == 1:
+            return {}
+        if c == 2 and refs:
+            return {"$ref": "#/$defs/" + rng.choice(refs)}
+        if c == 3:
+            return {"const": copy.deepcopy(rng.choice(_DATA))}
+        if c == 4:
+            return {"enum": [copy.deepcopy(rng.choice(_DATA)) for _ in range(rng.randint(1, 3))]}
+        if c == 5:
+            return {"type": rng.sample(["null", "boolean", "integer", "number", "string", "array", "object"],
+                                       rng.randint(1, 3))}
+        return {"type": rng.choice(["null", "boolean", "integer", "number", "string", "array", "object"])}
+    sub = lambda: _rand_schema(rng, depth - 1, refs)  # noqa: E731
+    s = {}
+    for _ in range(rng.randint(1, 3)):
+        k = rng.choice(["object", "array", "anyOf", "oneOf", "allOf", "type", "annot", "ref", "const", "pattern",
+                        "object", "array"])
+        if k == "object":
+            if rng.random() < 0.8:
+                s["properties"] = {n: sub() for n in rng.sample(["a", "b", "c", "title"], rng.randint(0, 3))}
+            if rng.random() < 0.6:
+                s["required"] = rng.sample(["a", "b", "c", "d"], rng.randint(0, 2))
+            if rng.random() < 0.6:
+                s["additionalProperties"] = rng.choice([True, False, sub()])
+        elif k == "array":
+            if rng.random() < 0.5:
+                s["prefixItems"] = [sub() for _ in range(rng.randint(0, 2))]
+            if rng.random() < 0.6:
+                s["items"] = sub()
+            if rng.random() < 0.4:
+                s["minItems"] = rng.randint(0, 2)
+            if rng.random() < 0.4:
+                s["maxItems"] = rng.randint(0, 3)
+            if rng.random() < 0.4:
+                s["uniqueItems"] = rng.random() < 0.8
+        elif k in ("anyOf", "oneOf", "allOf"):
+            s[k] = [sub() for _ in range(rng.randint(1, 3))]
+        elif k == "type":
+            s["type"] = rng.choice(["null", "boolean", "integer", "number", "string", "array", "object",
+                                    ["integer", "null"], ["string", "array"]])
+        elif k == "annot":
+            s[rng.choice(["title", "description", "default", "discriminator"])] = copy.deepcopy(rng.choice(_DATA))
+        elif k == "ref" and refs:
+            s["$ref"] = "#/$defs/" + rng.choice(refs)
+        elif k == "const":
+            s["const"] = copy.deepcopy(rng.choice(_DATA))
+        elif k == "pattern":
+            s["pattern"] = SEMVER_PATTERN
+    items = list(s.items())
+    rng.shuffle(items)
+    return dict(items)
+
+
+def _keywords(s, acc=None):
+    acc = set() if acc is None else acc
+    if isinstance(s, dict):
+        for k, v in s.items():
+            acc.add(k)
+            if k in SCHEMA_KW:
+                _keywords(v, acc)
+            elif k in SCHEMA_LIST_KW and isinstance(v, list):
+                for x in v:
+                    _keywords(x, acc)
+            elif k in SCHEMA_MAP_KW and isinstance(v, dict):
+                for x in v.values():
+                    _keywords(x, acc)
+    return acc
+
+
+def _syn_specs(rng, n_schemas, docs_per):
+    """Random acyclic `$defs` tables; per table a few data values, instances and mutated instances."""
+    specs = []
+    for _ in range(n_schemas):
+        defs = {}
+        for i in range(rng.randint(1, 3)):
+            defs[f"d{i}"] = _rand_schema(rng, rng.randint(1, 3), list(defs))
+        root = f"d{len(defs) - 1}"
+        # `_keywords` expects a schema; walk the table as a `$defs` map
+        docs = [copy.deepcopy(rng.choice(_DATA)) for _ in range(docs_per // 2)]
+        for _ in range(docs_per - len(docs)):
+            try:
+                d = gen_instance(defs, defs[root], rng, maxdepth=3)
+                if rng.random() < 0.5:
+                    d = mutate(d, rng, ["a", "b"])
+                docs.append(d)
+            except Exception:  # noqa: BLE001
+                docs.append(copy.deepcopy(rng.choice(_DATA)))
+        for d in docs:
+            specs.append({"kind": "syn", "defs": {"$defs": defs}["$defs"], "root": root, "doc": d})
+    return specs
+
+
+# real documents from the implementation -----------------------------------------------------------
+
+
+def _builder_docs(rng, n) -> list[tuple[str, object]]:
+    """(root, document) pairs from Hugr.to_json()/Package.to_json() of small random builder programs."""
+    from hugr import ops, tys, val
+    from hugr.build import Cfg, Dfg
+    from hugr.build.cond_loop import Conditional
+    from hugr.build.function import Module
+    from hugr.package import Package
+    from hugr.std.float import FLOAT_T, FloatVal
+    from hugr.std.int import INT_T, DivMod, IntVal
+    from hugr.std.logic import Not
+
+    pool = [tys.Bool, tys.Qubit, INT_T, tys.Unit, tys.USize(), FLOAT_T, tys.Tuple(tys.Bool, INT_T),
+            tys.Sum([[tys.Bool], [INT_T, tys.Qubit]]), tys.FunctionType([tys.Bool], [tys.Bool]),
+            tys.Either([tys.Qubit], [tys.Qubit, INT_T]), tys.Option(tys.Bool),
+            tys.Variable(0, tys.TypeBound.Copyable)]
+    copy_pool = [tys.Bool, INT_T, tys.Unit, tys.USize(), FLOAT_T, tys.Tuple(tys.Bool, INT_T)]
+
+    def vals():
+        return rng.choice([
+            val.TRUE, val.FALSE, IntVal(rng.randint(0, 100)), FloatVal(rng.choice([0.5, 2.0, -1.25])),
+            val.Tuple(val.TRUE, IntVal(rng.randint(0, 9))),
+            val.Sum(1, tys.Sum([[INT_T], [tys.Bool, INT_T]]), [val.TRUE, IntVal(34)]),
+            val.Unit,
+        ])
+
+    def p_id():
+        row = [rng.choice(pool) for _ in range(rng.randint(0, 4))]
+        h = Dfg(*row)
+        h.set_outputs(*h.inputs())
+        return h.hugr
+
+    def p_not():
+        h = Dfg(tys.Bool)
+        if rng.random() < 0.5:
+            h.metadata["name"] = rng.choice(["f", "", "main"])
+        (b,) = h.inputs()
+        for _ in range(rng.randint(1, 4)):
+            b = h.add_op(Not, b, metadata={"k": rng.randint(0, 3)} if rng.random() < 0.3 else None)
+        h.set_outputs(b)
+        return h.hugr
+
+    def p_tuple():
+        row = [rng.choice(copy_pool) for _ in range(rng.randint(1, 3))]
+        h = Dfg(*row)
+        t = h.add(ops.MakeTuple()(*h.inputs()))
+        outs = h.add(ops.UnpackTuple()(t))
+        h.set_outputs(*outs[: len(row)])
+        return h.hugr
+
+    def p_divmod():
+        h = Dfg(INT_T, INT_T)
+        a, b = h.inputs()
+        a, b = h.add(DivMod(a, b))
+        h.set_outputs(a, b)
+        return h.hugr
+
+    def p_nested():
+        h = Dfg(tys.Bool, tys.Bool)
+        a, b = h.inputs()
+        with h.add_nested(a) as nested:
+            (a1,) = nested.inputs()
+            x = nested.add(Not(a1))
+            if rng.random() < 0.5:
+                x = nested.add(Not(b))
+            nested.set_outputs(x)
+        h.set_outputs(nested, b)
+        return h.hugr
+
+    def p_const():
+        d = Dfg()
+        outs = [d.load(vals()) for _ in range(rng.randint(1, 3))]
+        if rng.random() < 0.3:
+            inner = Dfg(tys.Qubit)
+            inner.set_outputs(*inner.inputs())
+            outs.append(d.load(val.Function(inner.hugr)))
+        d.set_outputs(*outs)
+        return d.hugr
+
+    def p_module():
+        mod = Module()
+        f_id = mod.define_function("id", [tys.Qubit])
+        f_id.set_outputs(f_id.input_node[0])
+        if rng.random() < 0.5:
+            mod.declare_function("poly", tys.PolyFuncType(
+                [tys.TypeTypeParam(tys.TypeBound.Any)],
+                tys.FunctionType.endo([tys.Variable(0, tys.TypeBound.Any)])))
+        if rng.random() < 0.5:
+            mod.add_alias_defn("my_int", INT_T)
+            mod.add_alias_decl("my_bool", tys.TypeBound.Copyable)
+        f_main = mod.define_main([tys.Qubit])
+        q = f_main.input_node[0]
+        if rng.random() < 0.5:
+            call = f_main.call(f_id, q)
+        else:
+            load = f_main.load_function(f_id)
+            call = f_main.add(ops.CallIndirect()(load, q))
+        if rng.random() < 0.3:
+            f_main.add_state_order(call, f_main.output_node)
+        f_main.set_outputs(call)
+        return mod.hugr
+
+    def p_cfg():
+        cfg = Cfg(tys.Bool, INT_T)
+        entry = cfg.add_entry()
+        entry.set_block_outputs(*entry.inputs())
+        m1 = cfg.add_successor(entry[0])
+        m1.set_single_succ_outputs(*m1.inputs())
+        m2 = cfg.add_successor(entry[1])
+        (i,) = m2.inputs()
+        n = m2.add(DivMod(i, i))
+        m2.set_single_succ_outputs(n[0])
+        cfg.branch_exit(m1[0])
+        cfg.branch_exit(m2[0])
+        return cfg.hugr
+
+    def p_cond():
+        either = tys.Either([tys.Qubit], [tys.Qubit, INT_T])
+        h = Conditional(either, [tys.Bool])
+        with h.add_case(0) as c0:
+            q, b = c0.inputs()
+            c0.set_outputs(q, b)
+        with h.add_case(1) as c1:
+            q, _i, b = c1.inputs()
+            c1.set_outputs(q, b)
+        return h.hugr
+
+    def p_loop():
+        either = tys.Either([tys.Qubit], [tys.Qubit, INT_T])
+        h = Dfg(tys.Qubit)
+        (q,) = h.inputs()
+        with h.add_tail_loop([q], [h.load(val.TRUE)]) as tl:
+            q, b = tl.inputs()
+            with tl.add_if(b, q) as if_:
+                (q,) = if_.inputs()
+                if_.set_outputs(if_.add(ops.Continue(either)(q)))
+            with if_.add_else() as else_:
+                (q,) = else_.inputs()
+                else_.set_outputs(else_.add(ops.Break(either)(q, else_.load(IntVal(1)))))
+            tl.set_loop_outputs(else_.conditional_node, b)
+        h.set_outputs(*tl[:3])
+        return h.hugr
+
+    progs = [p_id, p_not, p_tuple, p_divmod, p_nested, p_const, p_module, p_cfg, p_cond, p_loop]
+    out = []
+    failed = 0
+    for i in range(n):
+        prog = progs[i % len(progs)]
+        try:
+            hugr = prog()
+            if rng.random() < 0.15:
+                out.append(("Package", json.loads(Package([hugr]).to_json())))
+            else:
+                out.append(("SerialHugr", json.loads(hugr.to_json())))
+        except Exception as e:  # noqa: BLE001
+            failed += 1
+            if failed <= 3:
+                log(f"[C17] builder program {prog.__name__} failed: {e!r}")
+    return out
+
+
+def _extension_docs() -> list[tuple[str, object]]:
+    d = SRC / "hugr" / "std" / "_json_defs"
+    return [("Extension", json.loads(f.read_text())) for f in sorted(d.rglob("*.json"))]
+
+
+# ----------------------------------------------------------------------------- jsonschema (python3-vt)
+
+_JS_SCRIPT = r"""
+import json, sys
+from jsonschema import Draft202012Validator
+req = json.load(sys.stdin)
+vals = {}
+out = []
+for cfg, root, doc in req["cases"]:
+    if isinstance(cfg, dict):  # synthetic: the $defs table itself
+        v = Draft202012Validator({"$ref": "#/$defs/" + root, "$defs": cfg}) if root in cfg else None
+    else:
+        key = (cfg, root)
+        if key not in vals:
+            defs = req["defs"][cfg]
+            vals[key] = Draft202012Validator({"$ref": "#/$defs/" + root, "$defs": defs}) if root in defs else None
+        v = vals[key]
+    try:
+        out.append(None if v is None else bool(v.is_valid(doc)))
+    except Exception as e:
+        out.append("error: " + repr(e)[:200])
+json.dump(out, sys.stdout)
+"""
+
+_js_cache: dict[str, object] = {}
+
+
+def _key(spec) -> str:
+    # (not sort_keys: member order is part of a synthetic case)
+    return hashlib.sha1(json.dumps([_table(spec), spec["root"], spec["doc"]]).encode()).hexdigest()
+
+
+def _table(spec):
+    """Name of the published file's configuration, or the synthetic `$defs` table itself."""
+    return spec["defs"] if spec.get("kind") == "syn" else spec["cfg"]
+
+
+def _js_batch(specs):
+    todo = [s for s in specs if s.get("kind") in ("doc", "syn") and _key(s) not in _js_cache]
+    if not todo:
+        return
+    cfgs, _ = configurations()
+    defs = {c["name"]: c["pub"].get("$defs", {}) for c in cfgs}
+    req = {"defs": defs, "cases": [[_table(s), s["root"], s["doc"]] for s in todo]}
+    try:
+        p = subprocess.run([VT_PY, "-c", _JS_SCRIPT], input=json.dumps(req), capture_output=True,
+                           text=True, timeout=3000)
+    except (OSError, subprocess.TimeoutExpired) as e:
+        raise InfraError(f"jsonschema subprocess: {e}") from e
+    if p.returncode != 0:
+        raise InfraError("jsonschema subprocess failed: " + p.stderr[-1500:])
+    res = json.loads(p.stdout)
+    for s, r in zip(todo, res):
+        _js_cache[_key(s)] = r
+
+
+# ----------------------------------------------------------------------------- check API
+
+
+def _cfg(name):
+    cfgs, _ = configurations()
+    for c in cfgs:
+        if c["name"] == name:
+            return c
+    return None
+
+
+def _doc_specs(rng, cfg_names, n_builder, n_schema, n_mut):
+    cfgs = {c["name"]: c for c in configurations()[0]}
+    cfg_names = [n for n in cfg_names if n in cfgs]
+    specs = []
+    if not cfg_names:
+        return specs
+    base: list[tuple[str, str, object]] = []
+    hugr_cfgs = [n for n in cfg_names if "SerialHugr" in cfgs[n]["pub"].get("$defs", {})] or cfg_names
+    for root, doc in _builder_docs(rng, n_builder):
+        base.append((rng.choice(hugr_cfgs), root, doc))
+    for root, doc in _extension_docs():
+        base.append((rng.choice(cfg_names), root, doc))
+    # schema-directed instances: every definition of every configuration in turn
+    order = [(n, d) for n in cfg_names for d in sorted(cfgs[n]["pub"].get("$defs", {}))]
+    rng.shuffle(order)
+    for i in range(n_schema):
+        name, d = order[i % len(order)] if order else (None, None)
+        if name is None:
+            break
+        defs = cfgs[name]["pub"]["$defs"]
+        try:
+            base.append((name, d, gen_instance(defs, defs[d], rng, maxdepth=rng.randint(2, 5))))
+        except (NoInstance, RecursionError):
+            continue
+    for name, root, doc in base:
+        specs.append({"kind": "doc", "cfg": name, "root": root, "doc": doc, "origin": "base"})
+    consts = {n: _consts(cfgs[n]["pub"].get("$defs", {})) for n in cfg_names}
+    for i in range(n_mut):
+        name, root, doc = base[i % len(base)]
+        m = doc
+        try:
+            for _ in range(rng.randint(1, 3)):
+                m = mutate(m, rng, consts[name])
+        except Exception:  # noqa: BLE001
+            continue
+        specs.append({"kind": "doc", "cfg": name, "root": root, "doc": m, "origin": "mutant"})
+    return specs
+
+
+def cases(rng, tier):
+    names = [c["name"] for c in configurations()[0]]
+    quick_names = [n for n in names if not n.startswith("testing")] or names
+    if tier == "quick":
+        specs = _doc_specs(rng, quick_names, 40, 110, 150) + _syn_specs(rng, 60, 4)
+    elif tier == "thorough":
+        specs = _doc_specs(rng, names, 300, 1200, 2000) + _syn_specs(rng, 500, 4)
+    else:  # search: oracle only
+        return _doc_specs(rng, names, 60, 500, 900)
+    _js_batch(specs)
+    return specs
+
+
+def run_impl(spec) -> str:
+    """Verdict of the published schema file on the document, by the jsonschema package."""
+    if spec.get("kind") not in ("doc", "syn"):
+        return json.dumps(_describe(spec), sort_keys=True)
+    if _key(spec) not in _js_cache:
+        _js_batch([spec])
+    r = _js_cache[_key(spec)]
+    if r is None:
+        return "!no-such-root"
+    if isinstance(r, str):
+        return r
+    return "true" if r else "false"
+
+
+def payload(spec):
+    if spec.get("kind") == "syn":
+        return "schema.eval", dumps([doc_sexp(spec["defs"]), spec["root"], doc_sexp(spec["doc"])])
+    if spec.get("kind") != "doc":
+        return None
+    return "schema.accepts", dumps([spec["cfg"], "pub", spec["root"], doc_sexp(spec["doc"])])
+
+
+def doc_sexp(j):
+    if j is None:
+        return A("null")
+    if isinstance(j, bool):
+        return A("true" if j else "false")
+    if isinstance(j, int):
+        return A(str(j))
+    if isinstance(j, float):
+        if j.is_integer():
+            return A(str(int(j)))
+        return [A("num"), repr(j)]
+    if isinstance(j, str):
+        return j
+    if isinstance(j, list):
+        return [A("arr"), *[doc_sexp(x) for x in j]]
+    return [A("obj"), *[[k, doc_sexp(v)] for k, v in j.items()]]
+
+
+def compare(spec, impl_obs, model_obs) -> bool:
+    """Lean eval == jsonschema == Python evaluator (all on the published schema)."""
+    if spec.get("kind") == "syn":
+        defs = spec["defs"]
+    else:
+        c = _cfg(spec["cfg"])
+        if c is None:
+            return False
+        defs = c["pub"].get("$defs", {})
+    py = _verdict(ev(defs, {"$ref": "#/$defs/" + spec["root"]}, spec["doc"]))
+    return model_obs == impl_obs and model_obs == py
+
+
+def _describe(spec):
+    return {k: v for k, v in spec.items() if k != "origin"}
+
+
+def oracle(spec) -> list[Failure]:
+    kind = spec.get("kind")
+    if kind == "doc":
+        c = _cfg(spec["cfg"])
+        if c is None:
+            return []
+        pd, gd = c["pub"].get("$defs", {}), c["gen"].get("$defs", {})
+        ref = {"$ref": "#/$defs/" + spec["root"]}
+        v1, v2 = ev(pd, ref, spec["doc"]), ev(gd, ref, spec["doc"])
+        if v1 != v2:
+            return [Failure(f"schema:{spec['cfg']}:{spec['root']}", "published-vs-generated-differ",
+                            f"published file {c['pub_file']} says {_verdict(v1)}, the schema generated from the "
+                            f"current models says {_verdict(v2)}")]
+        return []
+    if kind == "diff":
+        c = _cfg(spec["cfg"])
+        if c is None:
+            return []
+        d = first_difference(normalize(c["pub"]), normalize(c["gen"]))
+        if d is not None:
+            return [Failure(f"schema:{spec['cfg']}:{spec.get('def', '')}", "published-vs-generated-differ-no-document",
+                            f"at {d[0]}: published {json.dumps(d[1])[:200]} vs generated {json.dumps(d[2])[:200]}")]
+        return []
+    if kind == "files":
+        f = _files_failure()
+        return [f] if f else []
+    return []
+
+
+def _files_failure():
+    try:
+        cfgs, probs = configurations()
+        g = generated()
+    except Exception as e:  # noqa: BLE001
+        return Failure("schema:files", "generator-fails", repr(e)[:300])
+    ver = g["versions"]
+    bad: list = []
+    pubs, gens = sorted(published(bad=bad)), sorted(g["files"])
+    if bad:
+        return Failure("schema:files", "published-file-not-json", f"{bad} cannot be parsed")
+    if len(set(ver.values())) != 1 or pubs != gens:
+        return Failure("schema:files", "version-or-file-name-differs",
+                       f"versions {ver}; published files {pubs}; generator writes {gens}")
+    return None
+
+
+def nontrivial(spec, obs) -> bool:
+    if spec.get("kind") == "syn":
+        return obs in ("true", "false")
+    return spec.get("kind") == "doc" and isinstance(spec["doc"], (dict, list)) and len(spec["doc"]) > 0 \
+        and obs in ("true", "false")
+
+
+def stats(spec, obs, counters):
+    if spec.get("kind") == "syn":
+        counters[f"synthetic-schema:{obs}"] += 1
+        for k in _keywords({"$defs": spec["defs"]}) - {"$defs"}:
+            counters["synthetic-kw:" + k] += 1
+        return
+    if spec.get("kind") != "doc":
+        counters["non-document"] += 1
+        return
+    counters[f"verdict:{obs}"] += 1
+    counters[f"file:{spec['cfg']}"] += 1
+    counters[f"origin:{spec.get('origin', 'replay')}"] += 1
+    r = spec["root"]
+    counters["root:" + (r if r in ("SerialHugr", "TestingHugr", "Extension", "Package") else "other-def")] += 1
+
+
+def exhaustive(tier) -> bool:
+    return False
+
+
+def shrink(spec, pred):
+    if spec.get("kind") not in ("doc", "syn"):
+        return spec
+    doc = spec["doc"]
+
+    def ok(d):
+        try:
+            return pred({**spec, "doc": d})
+        except Exception:  # noqa: BLE001
+            return False
+
+    return {**spec, "doc": _shrink_doc(doc, ok)}
+
+
+def _shrink_doc(doc, ok):
+    changed = True
+    rounds = 0
+    while changed and rounds < 50:
+        changed = False
+        rounds += 1
+        for path in sorted(paths(doc), key=len):
+            if not path:
+                continue
+            try:
+                cand = _delete(doc, path)
+            except (KeyError, IndexError, TypeError):
+                continue
+            if ok(cand):
+                doc = cand
+                changed = True
+                break
+        if changed:
+            continue
+        for path in sorted(paths(doc), key=len):
+            here = _get(doc, path)
+            for simple in ([], {}, 0, ""):
+                if type(here) is type(simple) and here != simple and isinstance(here, (list, dict, str)):
+                    cand = _set(doc, path, simple)
+                    if ok(cand):
+                        doc = cand
+                        changed = True
+                        break
+            if changed:
+                break
+    return doc
+
+
+# ----------------------------------------------------------------------------- search after a failed equality
+
+
+def first_difference(a, b, path=""):
+    """(json-pointer, a-part, b-part) of the first difference (objects unordered)."""
+    if isinstance(a, dict) and isinstance(b, dict):
+        for k in sorted(set(a) | set(b)):
+            if k not in a:
+                return (f"{path}/{k}", "<absent>", b[k])
+            if k not in b:
+                return (f"{path}/{k}", a[k], "<absent>")
+            d = first_difference(a[k], b[k], f"{path}/{k}")
+            if d:
+                return d
+        return None
+    if isinstance(a, list) and isinstance(b, list):
+        if len(a) != len(b):
+            return (path, a, b)
+        for i, (x, y) in enumerate(zip(a, b)):
+            d = first_difference(x, y, f"{path}/{i}")
+            if d:
+                return d
+        return None
+    return None if canon(a) == canon(b) and type(a) is type(b) else (path, a, b)
+
+
+def distinguishing_document(pd, gd, name, seed=0, budget=400, seconds=10.0):
+    """A document on which `$defs/name` of the published and of the generated table give different
+    verdicts (schema-directed generation from both, then systematic single mutations)."""
+    rng = random.Random(seed)
+    ref = {"$ref": "#/$defs/" + name}
+    consts = sorted(set(_consts(pd)) | set(_consts(gd)))
+    deadline = time.time() + seconds
+
+    def differs(doc):
+        v1, v2 = ev(pd, ref, doc), ev(gd, ref, doc)
+        return v1 is not None and v2 is not None and v1 != v2
+
+    bases = []
+    for defs in (pd, gd):
+        if name not in defs:
+            continue
+        for i in range(budget // 10):
+            try:
+                bases.append(gen_instance(defs, defs[name], rng, maxdepth=1 + i % 4))
+            except (NoInstance, RecursionError):
+                continue
+    best = None
+
+    def consider(doc):
+        nonlocal best
+        if differs(doc):
+            size = len(json.dumps(doc))
+            if best is None or size < best[0]:
+                best = (size, doc)
+
+    for doc in SIMPLE:
+        consider(doc)
+    bases.sort(key=lambda d: len(json.dumps(d)))
+    tried = 0
+    for doc in bases:
+        consider(doc)
+        if (best is not None and tried > budget) or time.time() > deadline:
+            break
+        for path in list(paths(doc))[:60]:
+            tried += 1
+            if path:
+                consider(_delete(doc, path))
+            here = _get(doc, path)
+            for sv in SIMPLE:
+                consider(_set(doc, path, copy.deepcopy(sv)))
+            if isinstance(here, dict):
+                new = dict(here)
+                new["zz_extra"] = 0
+                consider(_set(doc, path, new))
+            if isinstance(here, list):
+                consider(_set(doc, path, list(here) + [0]))
+                if here:
+                    consider(_set(doc, path, list(here) + [copy.deepcopy(here[0])]))
+            if isinstance(here, str):
+                for c in consts[:80]:
+                    consider(_set(doc, path, c))
+        if best is not None:
+            break
+    if best is None:
+        for _ in range(budget):
+            if not bases or time.time() > deadline + seconds / 4:
+                break
+            doc = rng.choice(bases)
+            try:
+                for _ in range(rng.randint(1, 3)):
+                    doc = mutate(doc, rng, consts)
+            except Exception:  # noqa: BLE001
+                continue
+            consider(doc)
+    if best is None:
+        return None
+    return _shrink_doc(best[1], differs)
+
+
+def obligation_search(build_err, problems):
+    f = _files_failure()
+    if f is not None and f.cls == "generator-fails":
+        return None
+    try:
+        cfgs, _ = configurations()
+    except Exception:  # noqa: BLE001
+        return None
+    fallback = None
+    t_end = time.time() + 45
+    for c in cfgs:
+        pd, gd = c["pub"].get("$defs", {}), c["gen"].get("$defs", {})
+        np_, ng = normalize(c["pub"]), normalize(c["gen"])
+        for name in sorted(set(pd) | set(gd)):
+            a, b = np_.get("$defs", {}).get(name), ng.get("$defs", {}).get(name)
+            if a is not None and b is not None and first_difference(a, b) is None:
+                continue
+            doc = None
+            if time.time() > t_end:
+                pass
+            elif a is not None and b is not None:
+                if first_difference(strip_annotations(pd[name]), strip_annotations(gd[name])) is not None:
+                    doc = distinguishing_document(pd, gd, name)
+            else:
+                # a definition exists on one side only: look at the definitions that refer to it
+                for user in sorted(set(pd) & set(gd)):
+                    if f'"#/$defs/{name}"' in json.dumps(pd[user]) + json.dumps(gd[user]):
+                        doc = distinguishing_document(pd, gd, user)
+                        if doc is not None:
+                            name = user
+                            break
+            if doc is not None:
+                spec = {"kind": "doc", "cfg": c["name"], "root": name, "doc": doc}
+                fs = oracle(spec)
+                if fs:
+                    return {"spec": spec, "site": fs[0].site, "cls": fs[0].cls, "detail": fs[0].detail}
+            if fallback is None:
+                d = first_difference(a if a is not None else "<absent>", b if b is not None else "<absent>",
+                                     f"/$defs/{name}")
+                fallback = {"kind": "diff", "cfg": c["name"], "def": name, "path": d[0] if d else "",
+                            "published": d[1] if d else None, "generated": d[2] if d else None}
+        if fallback is None:
+            d = first_difference({k: v for k, v in np_.items() if k != "$defs"},
+                                 {k: v for k, v in ng.items() if k != "$defs"})
+            if d:
+                fallback = {"kind": "diff", "cfg": c["name"], "def": "", "path": d[0], "published": d[1],
+                            "generated": d[2]}
+    if fallback is not None:
+        fs = oracle(fallback)
+        if fs:
+            return {"spec": fallback, "site": fs[0].site, "cls": fs[0].cls, "detail": fs[0].detail}
+    if f is not None:
+        return {"spec": {"kind": "files", "what": f.detail}, "site": f.site, "cls": f.cls, "detail": f.detail}
+    return None
